@@ -540,6 +540,12 @@ class DataFormat(object):
         if self.format in (FORMAT_DELIMITED, FORMAT_FIXED):
             check_distinct(KEY_DECIMAL_SEPARATOR, KEY_THOUSANDS_SEPARATOR)
         if self.format == FORMAT_DELIMITED:
+            if self.item_delimiter in ("\n", "\r"):
+                # The reader always treats these as line breaks no matter which line delimiter has been declared.
+                raise errors.InterfaceError(
+                    "'%s' is %s but must not be a line break character"
+                    % (KEY_ITEM_DELIMITER, _compat.text_repr(self.item_delimiter))
+                )
             if self.line_delimiter is not None:
                 check_distinct(KEY_ESCAPE_CHARACTER, KEY_LINE_DELIMITER)
             check_distinct(KEY_ESCAPE_CHARACTER, KEY_ITEM_DELIMITER)
